@@ -246,7 +246,9 @@ def flush_total(ctx: Ctx, chk) -> None:
             outer = ctx.prog.parents[outer]
         if outer is not fl.loop:
             heads = [x for x in g.nodes if x.kind == "iter" and x.ast is outer]
-        p = g.reach_avoiding([g.entry], lambda x: x is g.exit, lambda x: x in heads, labels_skip=("exc",), from_succ=False)
+        # exceptional edges that end in a handler of the flush itself are ordinary control flow (`try: marker.remove(n)
+        # except KeyError: return message`); an exception that leaves the flush ends in the raise exit, not here
+        p = g.reach_avoiding([g.entry], lambda x: x is g.exit, lambda x: x in heads, from_succ=False)
         if p is None:
             chk.ok(rule, key, "every normal path reaches the iteration over the parked entries", ctx.loc(f, fl.loop))
         else:
